@@ -171,4 +171,40 @@ Section Check.
     end.
 
   Definition check_trace (stmts : list nat) (evs : list event) : bool := check evs [(init nat stmts 0, 0%nat)] [].
+
+  (* ---- what an observer sees of a run, and when the observed lines can have come from the device ---- *)
+  Definition is_term (l : line) : bool := match l with LOk | LErr => true | _ => false end.
+
+  (* the device can have produced the observed lines: every ok / error reply answers a statement it had received and not
+     answered yet (b = statements received so far, a = replies observed so far) *)
+  Fixpoint answerable (evs : list event) (b a : nat) : bool :=
+    match evs with
+    | [] => true
+    | ERecv _ :: evs' => answerable evs' (Datatypes.S b) a
+    | ERx l :: evs' => if is_term l then Nat.ltb a b && answerable evs' b (Datatypes.S a) else answerable evs' b a
+    | _ :: evs' => answerable evs' b a
+    end.
+
+  (* what an observer sees of a run of the closed system *)
+  Definition dev_label (l : line) : label :=
+    match l with LOk => DevTerm false | LErr => DevTerm true | LStatus => DevStatus | LAlarm => DevAlarm end.
+  Fixpoint observe (ls : list label) (s : st nat) : list event :=
+    match ls with
+    | [] => []
+    | l :: ls' =>
+      match step nat l s with
+      | None => []
+      | Some s' =>
+        let rest := observe ls' s' in
+        match l with
+        | CallWrite => ECall :: rest
+        | Return => match rev (outcomes nat s') with o :: _ => EReturn o :: rest | [] => rest end
+        | Send => match queue nat s with x :: _ => ERecv x :: rest | [] => rest end
+        | DevTerm err => ERx (if err then LErr else LOk) :: rest
+        | DevStatus => ERx LStatus :: rest
+        | DevAlarm => ERx LAlarm :: rest
+        | Read => rest
+        end
+      end
+    end.
 End Check.
